@@ -51,9 +51,10 @@ type State struct {
 }
 
 type heldLock struct {
-	obj   *Term
-	specs []*monitorRef
-	write bool
+	obj     *Term
+	specs   []*monitorRef
+	write   bool
+	tryCond *Term // set by TryLock: the lock is held only if this is true
 }
 
 func (s *State) clone() *State {
@@ -88,12 +89,21 @@ type VCtx struct {
 	oblPrefix string
 	me        *Term // invocation identity (ghost)
 	actionOld *State
+	csCount   int
+	envVals   []InputSpec // values produced by the environment (results of modelled external calls)
+	lastSelect *selectInfo
 }
 
 type embedInfo struct {
-	base *Term
-	path []string
-	typ  types.Type // type of the embedded object
+	base  *Term
+	path  []string
+	typ   types.Type // type of the embedded object
+	chain []embedLink // owners from outermost to innermost; chain[i] owns path[i:]
+}
+
+type embedLink struct {
+	term *Term
+	typ  types.Type
 }
 
 func (e *Engine) newCtx(fn *ssa.Function, c *FuncContract) *VCtx {
